@@ -5,6 +5,7 @@ from . import boot                                    # noqa: F401
 from .runner import CaseResult, Part
 from . import execsim
 from . import fluxsim
+from . import c07_dragon
 
 PID  = 'C07'
 RULE = ('cases = 1-4 tasks in 1-3 bulks (scripted exit code, optional launch fault point: no launcher / '
@@ -233,6 +234,7 @@ def parts(tier):
     return [
         # (cheap and constructed parts first: a wall-clock budget hit leaves the long random part short)
         Part('flux_pipeline', fluxsim.cases(), quick=300, thorough=2500),
+        Part('dragon_executor', c07_dragon.cases(), quick=300, thorough=2500),
         Part('noop_schedules', schedules(spawner='NOOP'), quick=40, thorough=200),
         Part('startup_report', enum=startup_cases),
         Part('limit_after_startup_report', enum=limit_cases),
@@ -247,6 +249,8 @@ def parts(tier):
 def normalise(case):
     if isinstance(case, dict) and case.get('kind') == 'fluxsim':
         return fluxsim.normalise(case)
+    if isinstance(case, dict) and case.get('kind') == 'dragon':
+        return c07_dragon.normalise(case)
     try:
         case = dict(case)
         case['bulks'] = [b for b in case.get('bulks', []) if b]
@@ -282,6 +286,8 @@ def noop_view(case):
 def run_case(case):
     if case.get('kind') == 'fluxsim':
         return fluxsim.run_case_for(PID, case)
+    if case.get('kind') == 'dragon':
+        return c07_dragon.run(case)
     case = noop_view(case)
     sim = execsim.run_schedule(case)
     res = CaseResult()
